@@ -147,13 +147,25 @@ impl HttpProtocol {
     }
 }
 
+impl HttpProtocol {
+    /// The protocol which carries requests of the given HTTP version, if there is one.
+    ///
+    /// HTTP/0.9, HTTP/1.0 and HTTP/1.1 are carried by HTTP/1.1 connections. HTTP/3 is
+    /// not supported.
+    pub(crate) fn for_version(version: ::http::Version) -> Option<Self> {
+        match version {
+            ::http::Version::HTTP_09 | ::http::Version::HTTP_10 | ::http::Version::HTTP_11 => {
+                Some(Self::Http1)
+            }
+            ::http::Version::HTTP_2 => Some(Self::Http2),
+            _ => None,
+        }
+    }
+}
+
 impl From<::http::Version> for HttpProtocol {
     fn from(version: ::http::Version) -> Self {
-        match version {
-            ::http::Version::HTTP_11 | ::http::Version::HTTP_10 => Self::Http1,
-            ::http::Version::HTTP_2 => Self::Http2,
-            _ => panic!("Unsupported HTTP protocol"),
-        }
+        Self::for_version(version).expect("Unsupported HTTP protocol")
     }
 }
 
